@@ -33,9 +33,11 @@
 EXTENDS Integers, Sequences, FiniteSets, TLC, Json
 
 CONSTANTS Contracts,     \* contract kinds to generate for
-          ArgClasses,    \* "valid" "valid2" "over" "missing" "garbage" "short"
+          ArgClasses,    \* "valid" "valid2" "over" "missing" "garbage" "short"; "toself" / "tosender" = well-formed, and the
+                         \* recipient argument names the contract's OWN address / the sender of the transaction
           AmtClasses,    \* "zero" "low" "some" "big"
-          GasClasses,    \* "zero" "small" "exact" "enough"
+          GasClasses,    \* "zero" "small" "exact" "enough"; "smallhalf" / "smallrem" = small, and the maximum fee is not a whole
+                         \* number of gas units: on top it carries exactly half a unit / a unit less one base unit
           Roles,         \* "owner" "other" "voter"
           Deep,          \* TRUE: include the > 30000 blocks of waiting after which an oracle voting can be terminated
           WalkLen,       \* length of the exported random walks (simulation mode only)
@@ -82,6 +84,14 @@ Dev(k, op) == (IF op.arg # "valid" THEN 1 ELSE 0) + (IF op.amt # DefAmt(k, op.m)
               + (IF op.gas # "enough" THEN 1 ELSE 0) + (IF op.who # DefWho(k, op.m) THEN 1 ELSE 0)
               + (IF op.pair # "no" THEN 1 ELSE 0)
 
+(* methods with a recipient argument *)
+HasRcpt(k, m) == \/ m = "terminate" /\ k \in {"timelock", "multisig", "refundlock"}
+                 \/ k = "timelock" /\ m = "transfer"
+                 \/ k = "multisig" /\ m \in {"send", "push"}
+                 \/ k = "erc20" /\ m = "transfer"
+                 \/ k = "sft" /\ m = "transferTo"
+                 \/ k = "payer" /\ m \in {"pay", "payfail", "paytwice"}
+
 Sandwiches == {"sw-" \o md \o "-" \o tl : md \in {"none", "self", "cin", "xout"}, tl \in {"again", "emb", "wasm", "fail", "two", "termemb"}}
 IsSandwich(op) == op.pair \in Sandwiches
 (* the address the operation is about to CREATE (top-level deployment, sub-deployment) already holds *)
@@ -96,13 +106,14 @@ TxOps(k) == {[m |-> m, arg |-> a, amt |-> p, gas |-> g, who |-> r, pair |-> pr] 
                 a \in ArgClasses, p \in AmtClasses, g \in GasClasses, r \in Roles, pr \in {"no", "same", "term"} \cup Sandwiches \cup Prefunds}
 Ops(k) == {op \in TxOps(k) :
               /\ Dev(k, op) <= MaxDev
+              /\ (op.arg \in {"toself", "tosender"} => HasRcpt(k, op.m) /\ op.pair \in {"no", "same"})
               /\ (op.pair \in {"same", "term"} => Embedded(k) /\ op.gas \in {"exact", "enough"})
               /\ (op.pair = "term" => op.m # "deploy")
               /\ (IsSandwich(op) => /\ (op.arg = "valid" \/ (op.arg = "valid2" /\ op.pair \in {"sw-self-again", "sw-cin-again", "sw-xout-emb"}))
                                     /\ op.gas = "enough" /\ op.m # "unknown"
                                     /\ (op.pair \in {"sw-none-termemb", "sw-self-termemb", "sw-cin-termemb", "sw-xout-termemb"} => Embedded(k) /\ op.m # "terminate")
                                     /\ op.amt = DefAmt(k, op.m) /\ op.who = DefWho(k, op.m))
-              /\ (op.pair \in Prefunds => Creates(k, op) /\ op.arg \in {"valid", "valid2"} /\ op.gas \in {"enough", "small"})
+              /\ (op.pair \in Prefunds => Creates(k, op) /\ op.arg \in {"valid", "valid2"} /\ op.gas \in {"enough", "small", "smallrem"})
               /\ (op.m = "terminate" => op.amt = "zero")}
           \cup {[m |-> "fund", arg |-> "valid", amt |-> "big", gas |-> "enough", who |-> "other", pair |-> "no"],
                 [m |-> "wait", arg |-> "valid", amt |-> "zero", gas |-> "enough", who |-> "other", pair |-> "no"]}
